@@ -38,6 +38,12 @@ pub enum IoAct {
     /// provided methods of std::io (an impl may override them): judged for allocations only (C17)
     ReadExact(usize),
     WriteAll(usize),
+    /// further provided methods of std::io (judged by their documented contract, C14)
+    ReadToEnd,
+    ReadVectored(usize, usize),
+    WriteVectored(usize, usize),
+    /// BufRead::read_until with the byte at position j of the contents as delimiter (j == len: a byte that is absent)
+    ReadUntil(usize),
     ExtendRef(usize),
     PushBack,
     PushFront,
@@ -55,6 +61,10 @@ impl IoAct {
             IoAct::Flush => "flush".into(),
             IoAct::ReadExact(m) => format!("read_exact({})", n(*m)),
             IoAct::WriteAll(m) => format!("write_all({})", n(*m)),
+            IoAct::ReadToEnd => "read_to_end".into(),
+            IoAct::ReadVectored(a, b) => format!("read_vectored({}+{})", a, b),
+            IoAct::WriteVectored(a, b) => format!("write_vectored({}+{})", a, b),
+            IoAct::ReadUntil(j) => format!("read_until({})", n(*j)),
             IoAct::ExtendRef(m) => format!("extend_ref({})", n(*m)),
             IoAct::PushBack => "push_back".into(),
             IoAct::PushFront => "push_front".into(),
@@ -71,6 +81,10 @@ impl IoAct {
             IoAct::Flush => "flush",
             IoAct::ReadExact(_) => "read_exact",
             IoAct::WriteAll(_) => "write_all",
+            IoAct::ReadToEnd => "read_to_end",
+            IoAct::ReadVectored(..) => "read_vectored",
+            IoAct::WriteVectored(..) => "write_vectored",
+            IoAct::ReadUntil(_) => "read_until",
             IoAct::ExtendRef(_) => "extend_ref",
             IoAct::PushBack => "push_back",
             IoAct::PushFront => "push_front",
@@ -84,6 +98,7 @@ impl IoAct {
         Some(match s {
             "fill_buf" => IoAct::FillBuf,
             "flush" => IoAct::Flush,
+            "read_to_end" => IoAct::ReadToEnd,
             "push_back" => IoAct::PushBack,
             "push_front" => IoAct::PushFront,
             "pop_back" => IoAct::PopBack,
@@ -99,6 +114,17 @@ impl IoAct {
                     IoAct::ReadExact(arg("read_exact(")?)
                 } else if s.starts_with("write_all(") {
                     IoAct::WriteAll(arg("write_all(")?)
+                } else if s.starts_with("read_until(") {
+                    IoAct::ReadUntil(arg("read_until(")?)
+                } else if s.starts_with("read_vectored(") || s.starts_with("write_vectored(") {
+                    let inner = s.split_once('(')?.1.strip_suffix(')')?;
+                    let (a, b) = inner.split_once('+')?;
+                    let (a, b) = (a.parse().ok()?, b.parse().ok()?);
+                    if s.starts_with("read_") {
+                        IoAct::ReadVectored(a, b)
+                    } else {
+                        IoAct::WriteVectored(a, b)
+                    }
                 } else if s.starts_with("extend_ref(") {
                     IoAct::ExtendRef(arg("extend_ref(")?)
                 } else {
@@ -130,6 +156,30 @@ pub fn io_alphabet(n: usize) -> Vec<IoAct> {
         v.push(IoAct::ExtendRef(m));
     }
     v.extend([IoAct::PushBack, IoAct::PushFront, IoAct::PopBack, IoAct::PopFront]);
+    v
+}
+
+/// Provided methods of the I/O traits (an impl may override them with something hand-written).
+pub fn provided_alphabet(n: usize, std_only: bool) -> Vec<IoAct> {
+    let mut v = vec![];
+    for d in 0..=n + 2 {
+        v.push(IoAct::ReadExact(d));
+    }
+    for m in 0..=2 * n + 1 {
+        v.push(IoAct::WriteAll(m));
+    }
+    if std_only {
+        v.push(IoAct::ReadToEnd);
+        for j in 0..=n {
+            v.push(IoAct::ReadUntil(j));
+        }
+        for x in 0..=n + 1 {
+            for y in 0..=n + 1 {
+                v.push(IoAct::ReadVectored(x, y));
+                v.push(IoAct::WriteVectored(x, y));
+            }
+        }
+    }
     v
 }
 
@@ -301,33 +351,90 @@ pub fn io_apply<const N: usize>(b: &mut B<N>, act: &IoAct, via: Via) -> IoObs {
         }
         IoAct::ReadExact(d) => {
             let mut dst = vec![SENTINEL; d];
-            #[cfg(feature = "std")]
-            {
-                let r = mc(|| std::io::Read::read_exact(b, &mut dst));
-                return match r {
-                    Ok(()) => IoObs::Unit,
-                    Err(e) => IoObs::Err(format!("{:?}", e.kind())),
-                };
+            let r: Result<(), String> = match via {
+                #[cfg(feature = "std")]
+                Via::Std => mc(|| std::io::Read::read_exact(b, &mut dst)).map_err(|e| format!("{:?}", e.kind())),
+                #[cfg(feature = "eio")]
+                Via::Eio => mc(|| embedded_io::Read::read_exact(b, &mut dst)).map_err(|e| format!("{:?}", e)),
+                #[cfg(feature = "eio-async")]
+                Via::EioAsync => match mc(|| poll_once(embedded_io_async::Read::read_exact(b, &mut dst))) {
+                    Some(r) => r.map_err(|e| format!("{:?}", e)),
+                    None => return IoObs::Pending,
+                },
+                #[allow(unreachable_patterns)]
+                _ => return IoObs::Unavailable,
+            };
+            match r {
+                Ok(()) => IoObs::Read(d, dst, true),
+                Err(e) => IoObs::Err(e),
             }
-            #[allow(unreachable_code)]
-            IoObs::Unavailable
         }
         IoAct::WriteAll(m) => {
             let data = fresh_bytes(&live, m);
-            #[cfg(feature = "std")]
-            {
-                let r = mc(|| std::io::Write::write_all(b, &data));
-                return match r {
-                    Ok(()) => IoObs::Unit,
-                    Err(e) => IoObs::Err(format!("{:?}", e.kind())),
-                };
-            }
-            #[allow(unreachable_code)]
-            {
-                let _ = data;
-                IoObs::Unavailable
+            let r: Result<(), String> = match via {
+                #[cfg(feature = "std")]
+                Via::Std => mc(|| std::io::Write::write_all(b, &data)).map_err(|e| format!("{:?}", e.kind())),
+                #[cfg(feature = "eio")]
+                Via::Eio => mc(|| embedded_io::Write::write_all(b, &data)).map_err(|e| format!("{:?}", e)),
+                #[cfg(feature = "eio-async")]
+                Via::EioAsync => match mc(|| poll_once(embedded_io_async::Write::write_all(b, &data))) {
+                    Some(r) => r.map_err(|e| format!("{:?}", e)),
+                    None => return IoObs::Pending,
+                },
+                #[allow(unreachable_patterns)]
+                _ => return IoObs::Unavailable,
+            };
+            match r {
+                Ok(()) => IoObs::Unit,
+                Err(e) => IoObs::Err(e),
             }
         }
+        #[cfg(feature = "std")]
+        IoAct::ReadToEnd => {
+            // (the destination Vec grows outside `mc`: only the crate's own allocations are attributed)
+            let mut out: Vec<u8> = Vec::with_capacity(4 * N + 64);
+            match std::io::Read::read_to_end(b, &mut out) {
+                Ok(n) => IoObs::Read(n, out, true),
+                Err(e) => IoObs::Err(format!("{:?}", e.kind())),
+            }
+        }
+        #[cfg(feature = "std")]
+        IoAct::ReadVectored(x, y) => {
+            let mut d0 = vec![SENTINEL; x];
+            let mut d1 = vec![SENTINEL; y];
+            let r = {
+                let mut bufs = [std::io::IoSliceMut::new(&mut d0), std::io::IoSliceMut::new(&mut d1)];
+                mc(|| std::io::Read::read_vectored(b, &mut bufs))
+            };
+            match r {
+                Ok(n) => {
+                    d0.extend_from_slice(&d1);
+                    d0.truncate(n.min(x + y));
+                    IoObs::Read(n, d0, true)
+                }
+                Err(e) => IoObs::Err(format!("{:?}", e.kind())),
+            }
+        }
+        #[cfg(feature = "std")]
+        IoAct::WriteVectored(x, y) => {
+            let data = fresh_bytes(&live, x + y);
+            let bufs = [std::io::IoSlice::new(&data[..x]), std::io::IoSlice::new(&data[x..])];
+            match mc(|| std::io::Write::write_vectored(b, &bufs)) {
+                Ok(n) => IoObs::Count(n),
+                Err(e) => IoObs::Err(format!("{:?}", e.kind())),
+            }
+        }
+        #[cfg(feature = "std")]
+        IoAct::ReadUntil(j) => {
+            let delim = if j < live.len() { live[j] } else { fresh_bytes(&live, 1)[0] };
+            let mut out: Vec<u8> = Vec::with_capacity(4 * N + 64);
+            match std::io::BufRead::read_until(b, delim, &mut out) {
+                Ok(n) => IoObs::Read(n, out, true),
+                Err(e) => IoObs::Err(format!("{:?}", e.kind())),
+            }
+        }
+        #[cfg(not(feature = "std"))]
+        IoAct::ReadToEnd | IoAct::ReadVectored(..) | IoAct::WriteVectored(..) | IoAct::ReadUntil(_) => IoObs::Unavailable,
         IoAct::ExtendRef(m) => {
             let data = fresh_bytes(&live, m);
             b.extend(data.iter());
@@ -361,7 +468,34 @@ pub fn io_model(cap: usize, v: &mut Vec<u8>, act: &IoAct) -> Option<IoObs> {
             Some(IoObs::Read(n, out, true))
         }
         IoAct::FillBuf => None,
-        IoAct::ReadExact(_) | IoAct::WriteAll(_) => None,
+        // provided methods, by their documented contract (an impl may override them)
+        IoAct::ReadExact(d) => {
+            if d <= v.len() {
+                let out: Vec<u8> = v.drain(..d).collect();
+                Some(IoObs::Read(d, out, true))
+            } else {
+                // how much was consumed before the failure is unspecified: see `io_case_routed`
+                v.clear();
+                Some(IoObs::Err("UnexpectedEof".into()))
+            }
+        }
+        IoAct::WriteAll(m) => {
+            let data = fresh_bytes(v, m);
+            v.extend(data);
+            keep_last(v);
+            Some(IoObs::Unit)
+        }
+        IoAct::ReadToEnd => {
+            let out: Vec<u8> = std::mem::take(v);
+            Some(IoObs::Read(out.len(), out, true))
+        }
+        IoAct::ReadUntil(j) => {
+            let n = if j < v.len() { j + 1 } else { v.len() };
+            let out: Vec<u8> = v.drain(..n).collect();
+            Some(IoObs::Read(n, out, true))
+        }
+        // how many bytes a vectored call transfers is the implementation's choice: see `io_case_routed`
+        IoAct::ReadVectored(..) | IoAct::WriteVectored(..) => None,
         IoAct::Consume(k) => {
             let n = k.min(v.len());
             v.drain(..n);
@@ -512,7 +646,35 @@ pub fn io_case_routed<const N: usize>(recipe: &[IoAct], history_via: Via, act: &
     };
     let exp = io_model(N, &mut model, act);
     let contents: Vec<u8> = b.iter().copied().collect();
+    match (act, &obs) {
+        (IoAct::ReadExact(d), _) if *d > pre.len() => {
+            // failed read_exact: any amount may have been consumed from the front
+            if pre.ends_with(&contents) {
+                model = contents.clone();
+            }
+        }
+        (IoAct::ReadVectored(x, y), IoObs::Read(n, bytes, _)) => {
+            let most = (x + y).min(pre.len());
+            if *n > most || (*n == 0 && most > 0) || bytes[..] != pre[..(*n).min(most)] {
+                probs.push(format!("read_vectored returned {} byte(s) {:?}; contents were {:?}, destination sizes {}+{}", n, bytes, pre, x, y));
+            }
+            model = pre[(*n).min(pre.len())..].to_vec();
+        }
+        (IoAct::WriteVectored(x, y), IoObs::Count(n)) => {
+            if *n > x + y || (*n == 0 && x + y > 0) {
+                probs.push(format!("write_vectored returned {} for inputs of {}+{} bytes", n, x, y));
+            }
+            let data = fresh_bytes(&pre, x + y);
+            model = pre.clone();
+            model.extend_from_slice(&data[..(*n).min(x + y)]);
+            if model.len() > N {
+                model.drain(..model.len() - N);
+            }
+        }
+        _ => {}
+    }
     match &obs {
+        IoObs::Err(_) if exp.as_ref() == Some(&obs) => {} // read_exact beyond the end: the documented error
         IoObs::Err(e) => probs.push(format!("{} returned an error: {}", act.show(), e)),
         IoObs::Pending => probs.push(format!("{} returned Poll::Pending", act.show())),
         _ => {}
@@ -646,6 +808,23 @@ pub fn c14_check<const N: usize>(_o: &Opts, rep: &mut Report) {
             samples.push((act.name().to_string(), format!("N={} state<{}> --{}--> {:?}; contents after {:?}", N, show_recipe(r), act.show(), obs, contents)));
         }
     });
+    // the provided methods (read_exact, write_all, read_to_end, read_until, read_vectored, write_vectored) from
+    // every reachable state, judged by their documented contracts: an impl is free to override them
+    for r in &sp.recipes {
+        for act in provided_alphabet(N, true) {
+            crate::set_case(&format!("n={}|ctor=new|recipe={}|filling=none|act={}|fault=none|extra=std::io", N, recipe_str(r), act.show()));
+            let (obs, contents, _key, probs, _) = io_case::<N>(r, &act, Via::Std);
+            trans += 1;
+            *by_action.entry(act.name()).or_insert(0) += 1;
+            if !matches!(obs, IoObs::Unit | IoObs::Count(0) | IoObs::Read(0, _, _)) {
+                nontrivial += 1;
+            }
+            outcomes.insert(fnv_of(&(act.name(), format!("{:?}", obs).len(), contents.len())));
+            for p in probs {
+                viols.push((r.to_vec(), act, p));
+            }
+        }
+    }
     rep.states += sp.recipes.len() as u64;
     rep.transitions += trans;
     rep.validated += trans;
@@ -710,6 +889,7 @@ pub fn c17_io<const N: usize>(rep: &mut Report) {
     for m in 0..=2 * N + 1 {
         acts.push(IoAct::WriteAll(m));
     }
+    acts.extend(provided_alphabet(N, true).into_iter().filter(|a| matches!(a, IoAct::ReadVectored(..) | IoAct::WriteVectored(..))));
     let mut n = 0u64;
     for r in &sp.recipes {
         for act in &acts {
@@ -853,11 +1033,23 @@ pub fn c16_check<const N: usize>(_o: &Opts, rep: &mut Report) {
     rep.layouts = sp.layouts as u64;
     rep.expected_layouts = if N == 0 { 1 } else { (N * N + 1) as u64 };
     for r in &sp.recipes {
-        for act in io_alphabet(N).into_iter().filter(|a| a.is_io()) {
+        for act in io_alphabet(N).into_iter().filter(|a| a.is_io()).chain(provided_alphabet(N, false)) {
             let ((o0, c0, _k0, p0, _), f0) = with_followup(|| io_case::<N>(r, &act, Via::Std));
+            // read_exact beyond the end fails in every trait family; what it consumed before failing is unspecified
+            let failed_exact = matches!(act, IoAct::ReadExact(_)) && matches!(o0, IoObs::Err(_));
             for &via in &vias {
                 crate::set_case(&format!("n={}|ctor=new|recipe={}|filling=none|act={}|fault=none|extra={}", N, recipe_str(r), act.show(), via.name()));
                 let ((o1, c1, _k1, p1, _), f1) = with_followup(|| io_case::<N>(r, &act, via));
+                if failed_exact {
+                    rep.transitions += 1;
+                    rep.validated += 1;
+                    rep.evaluations += 1;
+                    rep.action(act.name());
+                    if o0 != o1 {
+                        io_violation(rep, "C16", N, r, &act, via, "return-differs", &format!("std::io returned {:?}, {} returned {:?}", o0, via.name(), o1));
+                    }
+                    continue;
+                }
                 if o0 == o1 && c0 == c1 && f0 != f1 {
                     let at = f0.iter().zip(f1.iter()).position(|(a, b)| a != b).unwrap_or(0);
                     io_violation(rep, "C16", N, r, &act, via, "after-effect-differs", &format!("same result and contents, but what the call leaves behind differs: follow-up step {} (fill_buf / write(1) / fill_buf / write(2) / fill_buf / ...) gives {:?} after std::io and {:?} after {}", at, f0.get(at), f1.get(at), via.name()));
